@@ -1090,7 +1090,7 @@ def classify(b, li, why):
     # input class: the bundled file, or the generator flavour / probe name
     where = "bundled:" + os.path.basename(b.path) if b.origin == "bundled" else b.flavour
     fmt = lang.cmd.replace(" ", "")
-    first = re.sub(r"[^A-Za-z]+", "-", first).strip("-")[:60]
+    first = re.sub(r"[^A-Za-z]+", "-", first)[:60].strip("-")
     if "Total" in why:
         return ("decompile-fails:%s:%s:%s" % (fmt, where, first), "decompile of a compile-emitted/bundled binary failed: %s" % first)
     if "RoundTrip" in why:
